@@ -131,6 +131,26 @@ theorem mint_held (cfg : MintCfg) (blocked : Addr → Bool) (s s' : MintState) (
     · rw [mintTail_hold _ _ _ _ _ _ hne]; simp [ctr, mintTail, hc]
     · intro a h1 h2; exact mintTail_other _ _ _ _ _ _ _ h1 h2
 
+/-- `mint_reaches_eco`: when the ecosystem pool is not a blocked address, everything a block counts
+    is delivered to the ecosystem-pool address and the module account keeps none of it — the
+    predicate the wired application is judged by after every block (whatever the bank's SendEnabled
+    parameters: they are not an input of the model, nor of the code's module-to-account send) -/
+theorem mint_reaches_eco (cfg : MintCfg) (blocked : Addr → Bool) (s s' : MintState)
+    (hne : cfg.ecoPool ≠ cfg.module) (hnb : blocked cfg.ecoPool = false)
+    (h : beginBlocker cfg blocked s = .ok s') :
+    mintToEcoOK (ctr s) (ctr s') (s.bank.bal cfg.ecoPool cfg.denom) (s'.bank.bal cfg.ecoPool cfg.denom)
+      (s.bank.bal cfg.module cfg.denom) (s'.bank.bal cfg.module cfg.denom) = true := by
+  unfold mintToEcoOK
+  simp only [Bool.and_eq_true, decide_eq_true_eq]
+  rcases beginBlocker_cases cfg blocked s with ⟨h', _⟩ | ⟨c, amt, hc, _, _, _, h'⟩
+  · rw [h] at h'; cases h'; simp
+  · rw [h] at h'; cases h'
+    obtain ⟨e1, e2⟩ := mintTail_to_eco cfg blocked c amt s.bank hne hnb
+    have hcs : ctr s = c := by simp [ctr, hc]
+    have hcs' : ctr (mintTail cfg blocked c amt s.bank) = c + amt := by simp [ctr, mintTail]
+    rw [hcs, hcs', e1, e2]
+    refine ⟨⟨?_, rfl⟩, ?_⟩ <;> omega
+
 /-- The module account's balance never decreases in the BeginBlocker (C11's escrow can only grow). -/
 theorem mint_module_balance_mono (cfg : MintCfg) (blocked : Addr → Bool) (s s' : MintState)
     (hne : cfg.ecoPool ≠ cfg.module) (h : beginBlocker cfg blocked s = .ok s') (d : Denom) :
